@@ -7,12 +7,18 @@ THEOREMS = {
             "popularity_normalised", "fit_ends_with_normalize", "partialFit_ends_with_normalize",
             "stat_greedy", "stat_ucb", "stat_softmax", "stat_thompson", "stat_popularity", "stat_random",
             "fitRec_append", "parallelFitIn_closed"],
+    "C03": ["radius_exact", "euclid_via_squares", "knn_override_valid", "nanInv_init", "nanInv_addArm", "nanInv_removeArm",
+            "empty_nhood_exps", "nhood_from_scratch", "fit_discards"],
     "C05": ["partition_exact_cover", "effectiveJobs_bounds", "splitBySizes_flatten", "chunked_map", "predict_any_partition",
             "fit_tasks_commute", "parallelFitIn_closed", "Py.Dict.foldl_modify"],
     "C06": ["incremental_eq_batch", "spec_chunked", "rowsOf_append", "fitRec_append", "first_partial_is_fit", "neighbors_history"],
     "C07": ["fit_discards", "resetFor_congr", "sameConfig_fresh", "fit_after_history_eq_fresh"],
     "C09": ["argmax_first", "foldMax_spec", "argmaxFirst_mem", "predict_eq_argmax", "leWith_val"],
     "C10": ["predictExp_readonly", "predict_readonly", "impPredict_readonly", "query_readonly"],
+    "C11": ["hash_scale_invariant", "vecMul_scale", "hash_zero_projection", "planes_fixed_at_fit", "lsh_partial_hist",
+            "lsh_nhood_union"],
+    "C12": ["clusters_cell_rows", "clusters_cell_from_scratch", "clusters_partial_hist", "clusters_query_cell",
+            "tree_unobserved_arm", "tree_fit_empty_batch_arm"],
     "C13": ["ws_pairs_spec", "ws_target", "ws_untouched", "cold_arms_spec", "cold_not_trained", "coldToWarm_targets",
             "copyFold_get_target", "copyFold_get_other", "argminFirst_spec"],
     "C17": ["rejected_noop", "train_rejected_noop", "query_rejected_noop", "rejected_then_continue"],
@@ -20,11 +26,14 @@ THEOREMS = {
 
 IMPORTS = {
     "C01": ["MabModel.Props.C01"],
+    "C03": ["MabModel.Props.C03"],
     "C05": ["MabModel.Props.C05"],
     "C06": ["MabModel.Props.C06"],
     "C07": ["MabModel.Props.C07"],
     "C09": ["MabModel.Props.C09"],
     "C10": ["MabModel.Props.C10"],
+    "C11": ["MabModel.Props.C11"],
+    "C12": ["MabModel.Props.C12"],
     "C13": ["MabModel.Props.C13"],
     "C17": ["MabModel.Props.C17"],
 }
